@@ -486,6 +486,9 @@ class StmtMixin:
         eng = self
 
         def base_loc(expr):
+            if isinstance(expr, ast.Name) and isinstance(st.vars.get(expr.id), Vec):
+                # a lazily evaluated array expression that the loop stores into: allocate it now
+                st.vars[expr.id] = eng.materialize(st, st.vars[expr.id], expr.id)
             try:
                 v = eng.ev(st.fork(), expr)
             except Unsupported:
